@@ -560,6 +560,12 @@ func (fx *FX) evalCall(env *Env, c ECall) Val {
 		}
 		fx.fail("contract: rangecount outside a map-range loop over string keys")
 		return VInt{num(0)}
+	case "offset0": // the slice starts at offset 0 of its backing object
+		if sv, ok := argv(0).(VSlice); ok {
+			return VBool{eq(sv.Off, num(0))}
+		}
+		fx.fail("contract: offset0 needs a slice")
+		return VBool{tFalse}
 	case "rangeseen": // the enclosing map-range loop has already visited key k (ghost)
 		if env.rangeSeen.S != "" {
 			return VBool{sel(env.rangeSeen, seq(0))}
